@@ -28,13 +28,21 @@ def rerun(prop, data):
         print(f"{prop}: the stored behaviour no longer violates the property")
         return 0
     if kind == "trace":
-        from . import hexary_driver as hd
         from . import pipeline
 
+        module = rp.get("module", "Trace_Hexary")
+        drv = importlib.import_module({"Trace_Hexary": "harness.hexary_driver", "Trace_Binary": "harness.binary_driver",
+                                       "Trace_SMT": "harness.smt_driver", "Trace_ScratchDB": "harness.scratchdb_driver",
+                                       "Trace_Fog": "harness.fog_driver"}[module])
         rep = Report(prop, "quick", "model_checking")
-        fresh = hd.rerun_trace(mod, rp["trace"])
-        pipeline.code_to_spec(rep, rp.get("module", "Trace_Hexary"), rp.get("cfg", "Trace_Hexary.cfg"), [fresh],
-                              consts=("TraceConsts_Hexary", hd.consts), batches=1)
+        fresh = drv.rerun_trace(mod, rp["trace"])
+        if fresh.get("broken"):
+            print("  the re-executed calls again leave a database that is not a sparse tree over its default")
+            print(f"VIOLATION property={prop} replay={data.get('_path', '?')}")
+            return 1
+        pipeline.code_to_spec(rep, module, rp.get("cfg", module + ".cfg"), [fresh],
+                              consts=("TraceConsts_" + module.split("_", 1)[1], drv.consts), batches=1,
+                              owners={"C01", "C02", "C04", "C05", "C06", "C07", "C11", "C12", "C14", "C15", "C17"})
         for v in rep.violations:
             print(f"  finding clause={v['clause']} detail={json.dumps(v['detail'], default=str)[:400]}")
         if rep.violations:
@@ -42,6 +50,9 @@ def rerun(prop, data):
             return 1
         print(f"{prop}: the stored history, re-executed on the current code, is accepted by the specification")
         return 0
+    if kind == "smt-calls":
+        print("  stored as a list of calls that left an undecodable tree; run the check again to re-examine")
+        return 2
     if kind == "codec-row":
         from . import codec
         import random
